@@ -154,7 +154,7 @@ SetItem(m, p, node) ==
     /\ "set" \in Ops /\ Mutable /\ m \in Builders
     \* generated domain: the value is an object that is not in any map right now (one parent pointer
     \* cannot describe two places) and the assignment creates no cycle
-    /\ node # Root /\ node # m /\ ~Held(node) /\ (node \in M => m \notin Sub(node))
+    /\ ~Held(node) /\ node # Root /\ node # m /\ (node \in M => m \notin Sub(node))
     /\ LET w == Walk([mp |-> maps, ly |-> layers, pa |-> parent, ky |-> key, ab |-> abs], m, m, Front(p), {m, node})
            t == w.t
            tg == w.tgt
@@ -185,8 +185,9 @@ Clear(m) ==
            mp2 == [maps EXCEPT ![m] = Empty]
            ly2 == [layers EXCEPT ![m] = [i \in DOMAIN @ |-> IF i = 1 \/ ClearAllLayers THEN Empty ELSE @[i]]]
        IN /\ maps' = mp2 /\ layers' = ly2
-          /\ parent' = Forget([n \in Nodes |-> IF n \in gone THEN None ELSE parent[n]], mp2, ly2)
-          /\ key' = Forget([n \in Nodes |-> IF n \in gone THEN None ELSE key[n]], mp2, ly2)
+          \* (every node that drops out of m here is in `gone`: Forget would change nothing)
+          /\ parent' = [n \in Nodes |-> IF n \in gone THEN None ELSE parent[n]]
+          /\ key' = [n \in Nodes |-> IF n \in gone THEN None ELSE key[n]]
     /\ abs' = [abs EXCEPT ![m] = Empty]
     /\ ret' = NoRet /\ loadedNow' = {}
     /\ UNCHANGED <<cache, fixed, sealed, snap>>
@@ -314,9 +315,7 @@ SDelAttr(x, n) == /\ "smut" \in Ops /\ x \in SnapNodes /\ Plain(<<"exc", "ValueE
                   /\ UNCHANGED <<tree, fixed, sealed, snap>>
 
 ----------------------------------------------------------------------------
-\* (the guards of SetItem again, as filters on the quantifier domains: far fewer instances for TLC to evaluate)
-Loose == {n \in Nodes \ {Root} : ~Held(n)}
-Next == \/ (\E n \in Loose : \E m \in {x \in Builders \ {n} : n \in M => x \notin Sub(n)} : \E p \in Paths : SetItem(m, p, n))
+Next == \/ (\E n \in Nodes \ {Root}, m \in Builders, p \in Paths : SetItem(m, p, n))
         \/ (\E m \in M : PushLayer(m) \/ Clear(m) \/ Snapshot(m))
         \/ Seal
         \/ (\E h \in Hd : Call(h) \/ ClearHandle(h))
@@ -328,7 +327,8 @@ Spec == Init /\ [][Next]_vars
 ----------------------------------------------------------------------------
 (* Declarative layer                                                       *)
 
-TypeOK == /\ \A m \in M : DOMAIN maps[m] \subseteq Names /\ Range(maps[m]) \subseteq M \ {Root}
+TypeOK == /\ \A n \in Nodes : Held(n) \/ (parent[n] = None /\ key[n] = None)
+          /\ \A m \in M : DOMAIN maps[m] \subseteq Names /\ Range(maps[m]) \subseteq M \ {Root}
           /\ \A m \in M : Len(layers[m]) \in 1..MaxLayers
                           /\ \A i \in DOMAIN layers[m] : DOMAIN layers[m][i] \subseteq Names /\ Range(layers[m][i]) \subseteq Hd
           /\ \A n \in Nodes : parent[n] \in M \cup {None} /\ key[n] \in Names \cup {None}
